@@ -148,7 +148,7 @@ fn wait_cycles(n: u64) {
     }
 }
 
-fn job(j: usize, kind: usize, cancelable: bool, seed: u64) {
+fn job(j: usize, kind: usize, _cancelable: bool, seed: u64) {
     let mut rng = Rng::new(seed ^ (j as u64) << 20);
     let tid: u128 = ((j as u128 + 1) << 64) | rng.next() as u128;
     let remote = rng.next() | 1;
@@ -180,10 +180,6 @@ fn job(j: usize, kind: usize, cancelable: bool, seed: u64) {
         // that exit at once; then the root finishes here (or on yet another fresh thread)
         _ => {
             let root = Span::root(rn.clone(), SpanContext::new(TraceId(tid), SpanId(remote)));
-            if cancelable {
-                // keep the recorded cross-queue start/submit finding out of this workload
-                wait_cycles(2);
-            }
             let root = Arc::new(Mutex::new(Some(root)));
             let n = 1 + rng.below(3);
             let mut hs = vec![];
